@@ -25,7 +25,7 @@ FLAVORS = {
 }
 
 TARGETS = ["dbus-1", "dbus-internal", "dbus-daemon-internal", "dbus-daemon",
-           "launch-helper-internal", "dbus-daemon-launch-helper-for-tests"]
+           "launch-helper-internal", "dbus-daemon-launch-helper-for-tests", "dbus-testutils"]
 
 HASH_DIRS = ["dbus", "bus", "test", "cmake"]
 HASH_EXT = (".c", ".h", ".in", ".cmake", ".txt")
@@ -102,7 +102,7 @@ class Build:
         return {"flavor": self.flavor, "cflags": self.cflags, "tree_digest": self.digest,
                 "repo": self.repo, "repo_head": self.head, "repo_dirty": self.dirty}
 
-    def harness(self, name, extra_libs=(), bus=False, threads=False):
+    def harness(self, name, extra_libs=(), bus=False, testutils=False):
         """Compile /verif/harness/<name>.c against this build; returns path of the executable."""
         src = os.path.join(VERIF, "harness", name + ".c")
         hdir = os.path.join(self.dir, "verif-harness")
@@ -122,6 +122,8 @@ class Build:
                 "-DDBUS_COMPILATION", "-DHAVE_CONFIG_H", "-DDBUS_STATIC_BUILD_NOT",
                 "-I" + self.repo, "-I" + self.dir, "-I" + os.path.join(VERIF, "harness"),
                 src, "-o", out]
+            if testutils:
+                cmd += ["-I" + os.path.join(self.repo, "test"), os.path.join(self.libdir, "libdbus-testutils.a")]
             if bus:
                 cmd += [os.path.join(self.libdir, "libdbus-daemon-internal.a")]
             cmd += [os.path.join(self.libdir, "libdbus-internal.a"),
